@@ -77,6 +77,8 @@ def oracle(case, obs):
     for j, (st, o) in enumerate(zip(case['steps'], obs)):
         if st['op'] != 'save' or o['raised']:
             continue
+        if st.get('input') and st['input'].get('kind') in ('list', 'tuple') and not st['input']['items']:
+            continue          # an empty list: nothing is written, there is no file to validate
         where = f"after save #{j} mode={st['mode']} tree={st['tree']} emdpath={st.get('emdpath')}"
         e = V.wf_emd(o['slot'], case.get('program', 'emdfile'), case.get('user', ''), names)
         if e:
